@@ -1,6 +1,8 @@
 package c18
 
-// time.Time stream of C18 (T3 only: time is not in the Lean model, Out.Go stays empty).
+// time.Time stream of C18. Lines whose schema is a bare `time` (all `tu` lines, and the `tm` / `tm26` lines with schema
+// `time`) are model-compared (lean/ZV/Model/C18Time.lean over lean/ZV/Model/Time.lean); time fields inside structs and
+// slices are T3 only (the deep embedding ZV.Model.C18 has no time leaf; Out.Go stays empty).
 //
 //	c18 tm   <schema> p=<params> <values>   Marshal + round trip to the second + idempotent re-marshal + reference
 //	                                        encoder (every encoded time leaf must be the expected UTCTime /
@@ -323,8 +325,10 @@ func execTimeDecode(tag string, der []byte, tagset map[string]bool) (out zv.Out)
 	rest, err := asn1.UnmarshalWithParams(der, &got, tag)
 	if err != nil {
 		tagset["tu:reject"] = true
+		out.Go = "err"
 	} else {
 		tagset["tu:accept"] = true
+		out.Go = fmt.Sprintf("ok %s %d", TimeTok(got), len(rest))
 	}
 	if p.Optional || p.Set || p.Str != "" || p.HasDefault || (p.Application && p.Private) || (p.HasTag && (p.Tag < 0 || p.Tag > 30)) ||
 		(p.Time == "generalized" && p.HasTag && !p.Explicit) {
@@ -677,9 +681,11 @@ func genTime(g *zv.Gen) {
 				d := tuDecos[r.Intn(len(tuDecos))]
 				for _, y := range uYears {
 					emitTU(d, 23, []byte(y+dt+ck+z))
+					emitTPC(g, 23, []byte(y+dt+ck+z))
 				}
 				for _, y := range gYears {
 					emitTU(d, 24, []byte(y+dt+ck+z))
+					emitTPC(g, 24, []byte(y+dt+ck+z))
 				}
 			}
 		}
@@ -712,6 +718,7 @@ func genTime(g *zv.Gen) {
 			ut = 24
 		}
 		emitTU(tuDecos[r.Intn(len(tuDecos))], ut, c)
+		emitTPC(g, ut, c)
 	}
 	// 5. LAST (so that these expected failures can never crowd other violations out of the report): the D26 class,
 	// `generalized` + IMPLICIT tag
